@@ -329,7 +329,7 @@ def run(tier, seed):
             new_violations.append((doc, path))
     miri_runs = 0
     if tier == "thorough":
-        miri_runs, mfails = miri_tier(seed, 128)
+        miri_runs, mfails = miri_tier(seed, 384)
         seen = set()
         for (cls, ms, sc, msg) in mfails:
             if cls in seen:
